@@ -1981,6 +1981,20 @@ func (a *anchors) provenUnused(r *report.Report, rule string, f *ssa.Function, m
 		}
 		loads = append(loads, u)
 	}
+	// the PMT's own PID is never handed out: at each read of m.nextPID that is assigned, the current value has been compared
+	// with pmtStartPID after the last store to it and found different (an ES on the PMT PID interleaves two independent
+	// continuity counters on one PID)
+	if pmtPID, ok := PkgConstInt(p, "pmtStartPID"); ok && len(loads) > 0 {
+		allNot := true
+		for _, L := range loads {
+			if !a.flowNotConst(f, m, L, pmtPID) {
+				allNot = false
+			}
+		}
+		r.Check(allNot, rule, "auto-pid/not-the-pmt-pid-at-assignment", pos,
+			fmt.Sprintf("forward must-analysis: at each of the %d reads of m.nextPID that are assigned, the current value has been compared with pmtStartPID (%d) after the last store to it and found different", len(loads), pmtPID),
+			"the automatically assigned PID is not proven different from pmtStartPID at the point of assignment: the comparison is not repeated after m.nextPID is advanced, so the search can step onto the PMT PID and hand it out")
+	}
 	if len(loads) == 0 {
 		r.Unknown(rule, key, pos, "the assigned value has no source")
 		return
